@@ -448,7 +448,7 @@ def eval_pairs(ctx, shim, groups, gen=None, what_relabel=None, what_levels=None,
                                                      "replies": [x[:400] for x in reps] + [ofull[:400]]}
             ctx.violation(f"shape(): relabelling changes glyphs, positions or glyph flags when two overlapping settings of one AAT feature contradict each other "
                           f"({len(explained)} request pairs, {len(set(_font_name(x[1]) for x in explained))} fonts; {detail}; requests "
-                          f"{' | '.join(' '.join(x.split()[4:7] + x.split()[7:8] + x.split()[10:11]) for x in q[5:])}; with the global "
+                          f"{' | '.join(' '.join(x.split()[2:4] + x.split()[5:8] + x.split()[10:11]) for x in q[5:])}; with the global "
                           f"features' start mapped as well ({qfull.split()[7]}) the result is the relabelled image again)",
                           {"stage": "search", "stream": "shape-relabel", "generator": gen or "corpus", "kind": "relabel-conflict",
                            "font_line": reg, "requests": list(q[5:]), "full_image_request": qfull, "map": q[1],
@@ -464,7 +464,7 @@ def eval_pairs(ctx, shim, groups, gen=None, what_relabel=None, what_levels=None,
             stats["mid-grapheme-example"] = {"font": _font_name(reg), "kind": key[1], "requests": list(q[5:]), "replies": [x[:400] for x in reps]}
             continue     # reported separately: a ranged feature bound inside a grapheme is outside the property's hypothesis
         ctx.violation(f"shape(): {'relabelling the input clusters changes ' + key[1] if key[0] == 'relabel' else 'the cluster level changes glyphs or positions (' + str(key[-1]) + ')' if key[0] == 'levels' else key[0]} "
-                      f"({len(lst)} request pairs, {len(set(_font_name(x[1]) for x in lst))} fonts{'; generator ' + gen if gen else ''}; {detail}; requests {' | '.join(' '.join(x.split()[4:7] + x.split()[7:8] + x.split()[10:11]) for x in q[5:])})",
+                      f"({len(lst)} request pairs, {len(set(_font_name(x[1]) for x in lst))} fonts{'; generator ' + gen if gen else ''}; {detail}; requests {' | '.join(' '.join(x.split()[2:4] + x.split()[5:8] + x.split()[10:11]) for x in q[5:])})",
                       {"stage": "search", "stream": "shape-" + key[0], "generator": gen or "corpus", "font_line": reg, "requests": list(q[5:]),
                        "map": q[1] if key[0] == "relabel" else None,
                        "cluster_map": [[c, q[2](c)] for c in sorted(set(q[3]))] if key[0] == "relabel" else None,
@@ -1041,8 +1041,9 @@ def del_recipe(r):
       ctxdel   (Chain)Context format 3 over letters / marks whose record applies a deleting leaf to one input position
       single   SingleSubst letters / marks / derived -> fresh glyphs          multi    MultipleSubst -> two fresh glyphs
       lig      LigatureSubst letter + letter | letter + mark -> fresh glyph   ctxsingle  contextual wrapper of a single leaf
-    each top-level lookup belongs to one feature: an on-by-default tag or an off-by-default (user) tag; optionally a GPOS
-    SinglePos lookup (xAdvance / xPlacement on letters, marks and derived glyphs) under one of the user tags."""
+    each top-level lookup belongs to one feature: an on-by-default tag or an off-by-default (user) tag; in half of the fonts
+    a GPOS table with 1-2 SinglePos lookups (advance / placement of letters, marks and derived glyphs) under user tags or
+    kern / dist.  No font has a space glyph: invisible default ignorables are deleted in place before GPOS."""
     import fontbuild
     alpha = r.choice(sorted(DEL_ALPHABETS))
     letters_cp, marks_cp, script, native = DEL_ALPHABETS[alpha]
@@ -1121,25 +1122,35 @@ def del_recipe(r):
            "advances": [300 + 23 * g for g in range(n)], "gsub": {"features": feats, "lookups": lookups}}
     if gdef:
         rec["gdef"] = {"classes": {**{g: 1 for g in L}, **{g: 3 for g in Mk}}}
-    gpos_tag = None
-    if r.chance(1, 3):
-        gpos_tag = r.choice(user)
-        cov = sorted(set(r.sample(list(range(1, n)), r.range(3, min(10, n - 1)))))
-        rec["gpos"] = {"features": [{"tag": gpos_tag, "lookups": [0]}],
-                       "lookups": [{"type": 1, "flag": 0, "subtables": [{"format": 2, "coverage": cov, "values": [
-                           {"xAdvance": r.range(5, 90)} if r.chance(2, 3) else {"xPlacement": r.range(5, 90)} for _ in cov]}]}]}
-    tags = [f["tag"] for f in feats] + ([gpos_tag] if gpos_tag and gpos_tag not in by_tag else [])
+    gpos_tags = []
+    if r.chance(1, 2):
+        gpos_tags = r.sample(user + ["kern", "dist"], r.range(1, 2))
+        gl = []
+        for _ in gpos_tags:
+            cov = sorted(set(r.sample(list(range(1, n)), r.range(3, min(10, n - 1)))))
+            gl.append({"type": 1, "flag": 0, "subtables": [{"format": 2, "coverage": cov, "values": [
+                {"xAdvance": r.range(5, 90)} if r.chance(2, 3) else {"xPlacement": r.range(5, 90), "yPlacement": r.range(5, 90)} for _ in cov]}]})
+        rec["gpos"] = {"features": [{"tag": t, "lookups": [i]} for i, t in enumerate(gpos_tags)], "lookups": gl}
+    tags = [f["tag"] for f in feats] + [t for t in gpos_tags if t not in by_tag]
     return rec, letters_cp, marks_cp, script, native, tags, on, sorted(del_tags)
 
 
+DEL_IGNORABLES = [0x200B, 0x00AD, 0x2060, 0x034F, 0x200C, 0xFE00]     # ZWSP, SHY, WJ (graphemes of their own); CGJ, ZWNJ, VS1 (continuations)
+
+
 def del_text(r, letters, marks):
-    """2-5 graphemes: letter + 0-2 combining marks (at least one grapheme of several characters in 5 of 6 texts)"""
+    """2-5 graphemes: letter + 0-2 combining marks (at least one grapheme of several characters in 5 of 6 texts); in one text
+    of three, 1-2 default ignorables after some grapheme or inside it (the generated fonts have no space glyph, so
+    hide_default_ignorables deletes them IN PLACE — delete_glyphs_inplace — between GSUB and GPOS)"""
     while True:
         out = []
+        di = r.choice([0, 0, 1, 2])
         for _ in range(r.range(2, 5)):
             out.append(r.choice(letters))
             for _ in range(r.choice([0, 0, 1, 1, 1, 2])):
                 out.append(r.choice(marks))
+                if di and r.chance(1, 4): out.append(r.choice(DEL_IGNORABLES[3:])); di -= 1
+            if di and r.chance(1, 2): out.append(r.choice(DEL_IGNORABLES)); di -= 1
         if len(out) <= 12 and (len(out) > sum(1 for c in out if c in letters) or r.chance(1, 6)):
             return out
 
@@ -1174,7 +1185,7 @@ def del_pair_requests(r, nfonts, per_font):
                     if s_ == cl[0] and e_ == U32MAX: s_, e_ = 0, U32MAX
                     feats.append((t, r.choice([1, 1, 1, 0, 2]) if not must else 1, s_, e_))
             if r.chance(1, 3): feats = r.shuffle(feats)
-            flags = r.choice([0, 0, 0, 3, 4, 0x40])
+            flags = r.choice([0, 0, 0, 3, 4, 8, 0x40])
             sc = script if r.chance(3, 4) else "-"
             mk = lambda cl_, feats_, lv_: " ".join(["shape", fid, d or "-", sc, "-", str(flags), str(lv_),
                                                      ",".join(f"{corpus.tag_hex(t)}:{v}:{x}:{y}" for t, v, x, y in feats_) or "-",
